@@ -586,6 +586,9 @@ class EngineRun:
             'write_failures': self.t.failed_attempts,
             'oneway_pending': [k for k, at, f in self.oneway if not f.done() and at < self._first_loss_index()],
             'oneway_total': len(self.oneway),
+            # no loss, write side healthy, loop settled: every one-way frame has been written, so every one-way awaitable must be done
+            'oneway_pending_settled': ([k for k, at, f in self.oneway if not f.done()] if self._first_loss_index() < 0 and not self.closed_seen
+                                       and not self.t.fail_sends and not self.t.gated and ep._send_queue.empty() else []),
         }
         self.poll_futures()
         self.done = True
